@@ -5,9 +5,9 @@ from rig import Infra
 LEVEL = "exploration"
 META = {
     "engine": "Determinism",
-    "technique": "TLA+ statement of determinism as an invariant over a build history (equal key => equal digests); TLC enumerates all declaration graphs (package-level variables / functions referring to each other) as sources; each is built repeatedly within a process and in three processes by the real code; the concatenated history is validated by a TLC trace spec",
+    "technique": "TLA+ statement of determinism as an invariant over a build history (equal key => equal digests), model-checked on an implementation-shaped builder with per-process shared state (the leaky variant must violate it); TLC enumerates all declaration graphs (package-level variables / functions referring to each other) and all sets of <=2/3 out of 16 language features as sources; each is built repeatedly within a process and in three processes that build the sources in different orders by the real code; the concatenated history is validated by a TLC trace spec",
     "level": "exploration",
-    "level_text": "The spec states the property (a history invariant) and TLC evaluates it on every prefix of the real build history; the case space - every declaration graph over 3 (quick) / 4 (thorough, capped sample) variables with <=2 references each and one function, as a Go program and as a template importing a native package with 7 declarations - is enumerated by TLC. The source of nondeterminism (Go's per-loop randomised map iteration in the checker's dependency analysis and in the emitter) is exercised by repetition (3-4 builds x 3 processes per source), not enumerated, hence 'exploration'.",
+    "level_text": "The spec states the property (a history invariant) and TLC evaluates it on every prefix of the real build history; the case space - every declaration graph over 3 (quick) / 4 (thorough, capped sample) variables with <=2 references each and one function, as a Go program and as a template importing a native package with 7 declarations - and every set of at most 2 (quick) / 3 (thorough) of 16 language features whose emission goes through maps, pools or package-level state (multi-value package variables, constants converted to named types, closures capturing parameters, complex arithmetic helpers, same-line functions, imported files with same-line macros, ...) - is enumerated by TLC. The three processes build the sources in ascending, descending and shuffled order, so that state left behind by an earlier build (history dependence) shows as a disagreement between processes. The source of nondeterminism (Go's per-loop randomised map iteration in the checker's dependency analysis and in the emitter) is exercised by repetition (3-4 builds x 3 processes per source), not enumerated, hence 'exploration'.",
     "level_note": "Trusted: TLC, sha256 digests computed by the driver over Disassemble output / UsedVars / run output or build-error text. A nondeterminism with probability p per build is missed with probability (1-p)^(builds-1) per source.",
     "design_ref": "7/C30",
 }
@@ -17,24 +17,44 @@ FAMS = ["determinism"]
 def run(ctx, only_ids=None):
     wd = ctx.stage("mc", FAMS)
     nv = ctx.pick(3, 4)
-    rig.write_cfg(wd / "MC_Determinism.cfg", next_="MCNext", constants={"NV": nv}, invariants=["Deterministic"])
+    maxfeat = ctx.pick(2, 3)
+    consts = {"NV": nv, "MaxFeat": maxfeat, "Leaky": False}
+    rig.write_cfg(wd / "MC_Determinism.cfg", init="MCInit", next_="MCNext", constants=consts, invariants=["Deterministic"])
     r = ctx.tlc(wd, "MC_Determinism", workers=4, timeout=1200, must_pass=True)
     cases = rig.read_ndjson(wd / "cases.ndjson")
-    ctx.cov.update(states=r.distinct, transitions=r.generated, graphs=len(cases), bounds=f"NV={nv}")
+    featcases = rig.read_ndjson(wd / "cases_feats.ndjson")
+    # non-vacuity: a builder that keeps state between the builds of a process must violate the invariant
+    wl = ctx.stage("mc_leaky", FAMS)
+    rig.write_cfg(wl / "MC_Determinism.cfg", init="MCInit", next_="MCNext", constants=dict(consts, NV=1, MaxFeat=0, Leaky=True), invariants=["Deterministic"])
+    rl = ctx.tlc(wl, "MC_Determinism", workers=1, timeout=600)
+    ctx.cov["nonvacuity_leaky_builder_violates_invariant"] = bool(rl.invariant_violated)
+    if not rl.invariant_violated:
+        raise Infra("Determinism invariant is vacuous: the leaky builder was accepted")
+    ctx.cov.update(states=r.distinct, transitions=r.generated, graphs=len(cases), feature_programs=len(featcases), bounds=f"NV={nv} MaxFeat={maxfeat}")
     acyclic = [c for c in cases if not c["cyclic"]]
     cyclic = [c for c in cases if c["cyclic"]]
     ctx.cov.update(acyclic_graphs=len(acyclic), cyclic_graphs=len(cyclic))
     cap = ctx.pick(1200, 10000)
     cases = rig.pick_samples(acyclic, cap, ctx.seed) + rig.pick_samples(cyclic, cap // 8, ctx.seed)   # all acyclic graphs up to the cap + a sample of cyclic ones
+    cases += featcases
     if only_ids is not None:
-        cases = [c for c in cases if c["id"] in only_ids]
-    cf = ctx.work / "cases.ndjson"
-    rig.write_ndjson(cf, cases)
+        # a feature program is replayed inside the whole feature history (a leak needs the builds before it)
+        cases = [c for c in cases if c["id"] in only_ids or (c["id"] >= 1000000 and any(i >= 1000000 for i in only_ids))]
     events = []
     nproc = 3
+    import random
     for p in range(1, nproc + 1):
+        # each process builds the sources in its own order (ascending / descending / shuffled): what an earlier
+        # build leaves behind in the process must not change a later one
+        order = list(cases)
+        if p == 2:
+            order.reverse()
+        elif p == 3:
+            random.Random(ctx.seed).shuffle(order)
+        cf = ctx.work / f"cases_p{p}.ndjson"
+        rig.write_ndjson(cf, order)
         o = ctx.work / f"obs_p{p}.ndjson"
-        ctx.drive("c30", cf, o, args=["-proc", p, "-reps", ctx.pick(3, 4)], timeout=2400)
+        ctx.drive("c30", cf, o, args=["-proc", p, "-reps", ctx.pick(3, 4), "-j", 1 if p == 1 else 0], timeout=2400)
         events += rig.read_ndjson(o)
     events.sort(key=lambda e: (e["id"], e["proc"], e["rep"]))       # contiguous per key (plumbing)
     obs = ctx.work / "obs.ndjson"
@@ -46,18 +66,24 @@ def run(ctx, only_ids=None):
     ctx.cov.update(evaluations=len(events), traces_validated_against_impl=len(keys),
                    distinct_nontrivial=len({k for k, v in keys.items() if not v[0]["out"].startswith("builderror")}),
                    builderror_sources=len({k for k, v in keys.items() if v[0]["out"].startswith("builderror")}),
-                   rule="every declaration graph exported by TLC (sampled beyond the cap), as program and as template; each built reps x 3 processes; non-trivial = the source builds (its disassembly and behaviour digests are compared); cyclic graphs compare their build-error text",
+                   rule="every declaration graph exported by TLC (sampled beyond the cap) and every feature set exported by TLC, as program and as template; each built reps x 3 processes; non-trivial = the source builds (its disassembly and behaviour digests are compared); cyclic graphs compare their build-error text",
                    exhaustive=False, processes=nproc,
                    samples=[{k: e[k] for k in ("id", "form", "proc", "rep", "asm", "used", "out")} for e in rig.pick_samples(events, 4, ctx.seed)])
     confirmed = []
     if bads:
         ids = sorted({b["obs"]["case"] for b in bads})
-        cc = ctx.work / "confirm_cases.ndjson"
-        rig.write_ndjson(cc, [c for c in cases if c["id"] in ids])
+        # the reproduction keeps the neighbours of the case in the history (a leak needs the earlier build)
         ev2 = []
         for p in range(1, 4):
+            order = rig.read_ndjson(ctx.work / f"cases_p{p}.ndjson")
+            keep = set()
+            for i, c in enumerate(order):
+                if c["id"] in ids:
+                    keep.update(range(max(0, i - 40), i + 1))
+            cc = ctx.work / f"confirm_cases_p{p}.ndjson"
+            rig.write_ndjson(cc, [c for i, c in enumerate(order) if i in keep])
             o = ctx.work / f"confirm_p{p}.ndjson"
-            ctx.drive("c30", cc, o, args=["-proc", p, "-reps", 12], timeout=2400)
+            ctx.drive("c30", cc, o, args=["-proc", p, "-reps", 6, "-j", 1 if p == 1 else 0], timeout=2400)
             ev2 += rig.read_ndjson(o)
         ev2.sort(key=lambda e: (e["id"], e["proc"], e["rep"]))
         co = ctx.work / "confirm_obs.ndjson"
